@@ -510,3 +510,35 @@ def extract_fn(path, ctx_re, name, spec, rules, hits, nth=None, extra=None, rena
     item.update(generated=text, ntokens=ntok)
     del item['tokens']
     return item
+
+
+def extract_closure(path, ctx_re, fn_name, anchor, new_sig, spec, rules, hits, nth=None, extra=None):
+    """Extract the block body of a closure inside function `fn_name`: `anchor` is the token text
+    that ends with the closure's opening brace (e.g. `guard(self, move |self_| {`).  The closure
+    header is replaced by the synthesized function signature `new_sig` (captures become
+    parameters); the body is copied token for token and goes through the same rewrite table."""
+    item = locate_fn(path, ctx_re, fn_name, nth)
+    toks = item['tokens']
+    atoks = [x[1] for x in lex(anchor)]
+    pos = None
+    for j in range(len(toks) - len(atoks) + 1):
+        if [t.text for t in toks[j:j + len(atoks)]] == atoks:
+            pos = j + len(atoks) - 1
+            break
+    if pos is None:
+        raise ExtractError('closure anchor lost in fn %s: %r' % (fn_name, anchor))
+    close = _find_close(toks, pos)
+    body = toks[pos:close + 1]
+    src_text = emit(body)
+    sig = [Tok(k, t, ' ') for (k, t, s_, e_) in lex(new_sig)]
+    sig[0].gap = ''
+    body[0].gap = ' '
+    toks2 = rewrite(sig + body, rules, hits, extra)
+    toks2, bidx = name_return(toks2, hits)
+    expected = list(toks2)
+    toks2 = splice(toks2, bidx, spec)
+    text = emit(toks2)
+    ntok = self_check(text, expected)
+    import hashlib as _h
+    return dict(generated=text, ntokens=ntok, line0=item['line0'], line1=item['line1'], file=path,
+                sha=_h.sha256(src_text.encode()).hexdigest(), text=src_text)
